@@ -40,10 +40,16 @@ def run(run, tier, seed, replay=None):
     n = 300 if quick else 6000
     designs = corpus()
     k = 0
+    skipped = 0
     while len(designs) < n:
         r = core.rng(seed, "C01", "designs", k)
         k += 1
-        designs.append(D.gen_design(r, size=r.choice([1, 2, 2, 3]) if quick else r.choice([1, 2, 3, 4])))
+        d = D.gen_design(r, size=r.choice([1, 2, 2, 3]) if quick else r.choice([1, 2, 3, 4]))
+        # the in-Coq evaluation of the net relation is quadratic in the number of terminal bits: keep designs bounded
+        if len(D.terminals(d)[0]) > (120 if quick else 200):
+            skipped += 1
+            continue
+        designs.append(d)
     outs, bad = evaluate(designs, "designs")
     feats = {}
     for d in designs:
@@ -51,7 +57,7 @@ def run(run, tier, seed, replay=None):
             feats[f] = feats.get(f, 0) + int(v)
     rejected = sum(1 for o in outs if o["pkg"] is None)
     run.stream("designs", len(designs), len({json.dumps(d) for d in designs if sum(D.features(d).values()) >= 3}),
-               features=feats, rejected_by_impl=rejected,
+               features=feats, rejected_by_impl=rejected, skipped_over_terminal_bound=skipped,
                rule="non-trivial = at least 3 of {refs, no-connects, arrays, slices, concats, hierarchy, external modules, negative steps}; distinct by design")
     for f in ("refs", "ncs", "arrays", "slices", "concats", "hier", "exts", "negstep"):
         if feats.get(f, 0) == 0:
